@@ -993,6 +993,10 @@ void matrixSslDeleteSession(ssl_t *ssl)
     {
         psFree(ssl->certVerifyMsg, ssl->hsPool);
     }
+    if (ssl->nstMsg)
+    {
+        psFree(ssl->nstMsg, ssl->hsPool);
+    }
 # if defined(USE_PSK_CIPHER_SUITE) && defined(USE_CLIENT_SIDE_SSL)
     if (ssl->sec.hint)
     {
